@@ -124,16 +124,18 @@ struct SampleRun {
 
     void op_gtr(const Op& op) {
         GTv b = base(op.arg(1)); int which = (int) op.arg(2) % 2;
+        // the clause "the random exponent is consistent with the returned element" is stated by C07 and by C10: judge it under the one being checked
+        const char* GP = env.focus == "C10" ? "C10" : "C07";
         begin((uint64_t) op.arg(0), op.s);
         GTv out; Frv y; memset(y.b, 0, 32); const char* nm = which ? "random_gt" : "gt_multiply_random";
         if (which) { R.jv_const_get(JV_EK_GT, 1, b.b); R.jv_wk_random_gt(view, out.b, jv_rand_cb); }
         else if (op.arg(3) & 1) { memcpy(out.b, b.b, sizeof(out.b)); R.jv_gt_multiply_random(view, out.b, y.b, out.b, jv_rand_cb); env.count("probe:in_place_call_output_is_the_input_object"); }   // the caller's accumulator idiom: result object = base object
         else R.jv_gt_multiply_random(view, out.b, y.b, b.b, jv_rand_cb);
-        SampleCursor c(env.stream.reqs); Bn v; uint64_t d[4]; model_powers_random(c, v, d); finish(c, nm, "C07");
-        if (!which) { env.check(Bn::from_le(y.b, 32) == v, "C07", "random-exponent:value", strf("gt_multiply_random returned exponent %s, the stream determines %s", Bn::from_le(y.b, 32).hexstr().c_str(), v.hexstr().c_str())); env.check(Bn::from_le(y.b, 32) < K().r, "C07", "random-exponent:below-r", "random exponent >= r"); }
-        env.check(w.ct(out) == w.ct(w.gtpow(b, v)), "C07", "random-exponent:power", std::string(nm) + ": result != base^y by generic square-and-multiply");
+        SampleCursor c(env.stream.reqs); Bn v; uint64_t d[4]; model_powers_random(c, v, d); finish(c, nm, GP);
+        if (!which) { env.check(Bn::from_le(y.b, 32) == v, GP, "random-exponent:value", strf("gt_multiply_random returned exponent %s, the stream determines %s", Bn::from_le(y.b, 32).hexstr().c_str(), v.hexstr().c_str())); env.check(Bn::from_le(y.b, 32) < K().r, GP, "random-exponent:below-r", "random exponent >= r"); }
+        env.check(w.ct(out) == w.ct(w.gtpow(b, v)), GP, "random-exponent:power", std::string(nm) + ": result != base^y by generic square-and-multiply");
         GTv nd; uint8_t k[32]; v.to_le(k, 32); R.jv_gt_pow_nodiv(nd.b, b.b, k);
-        env.check(w.ct(out) == w.ct(nd), "C07", "random-exponent:power-nodiv", std::string(nm) + ": result != base^y by the division-free cyclotomic path");
+        env.check(w.ct(out) == w.ct(nd), GP, "random-exponent:power-nodiv", std::string(nm) + ": result != base^y by the division-free cyclotomic path");
         for (int i = 0; i < 4; i++) if (Bn(d[i]) == Bn::sub(K().absx, Bn(1))) env.count("probe:digit_equals_x_minus_1");
         if (v == Bn::sub(K().r, Bn(1))) env.count("probe:random_exponent_r_minus_1");
         env.logf("GTR %s y=%s", nm, v.hexstr().c_str());
